@@ -1,4 +1,5 @@
 """C11 — raw pixel load/store and iteration round-trip in both data orders (structural part)."""
+import re
 from fractions import Fraction
 from mirq import ty_str
 from mirq.cfg import CFG
@@ -514,7 +515,25 @@ def _lin(t, bits):
     if k == "field" and t[1][0] == "call" and t[1][1].endswith("load_store::bit_position") and t[2] == 0:
         # byte index of bit_position (its table is checked by R11.5): index / (8 / bpp)
         return (1, 8 // bits, 0)
+    if k == "call" and t[1].endswith("::len") and len(t[3]) == 1:
+        n = _static_len(strip_refs(t[3][0]))
+        if n is not None:
+            return (0, 1, n)
     raise Undecided("index expression %s" % show(t))
+
+
+def _static_len(a):
+    """length of a byte sequence whose size is fixed by its type: uN::to_{be,le,ne}_bytes, a constant sub-range of one"""
+    if a[0] == "call" and a[1].split("::")[-1] in ("to_be_bytes", "to_le_bytes", "to_ne_bytes"):
+        m = re.search(r"impl [ui](\d+)>", a[1])
+        return int(m.group(1)) // 8 if m else None
+    if a[0] == "call" and a[1].split("::")[-1] in ("index", "index_mut") and len(a[3]) == 2:
+        r = strip_refs(a[3][1])
+        if r[0] == "agg" and str(r[1]).endswith("Range::Range") and all(x[0] == "const" and isinstance(x[1], int) for x in r[2]):
+            n = _static_len(strip_refs(a[3][0]))
+            if n is not None and 0 <= r[2][0][1] <= r[2][1][1] <= n:
+                return r[2][1][1] - r[2][0][1]
+    return None
 
 
 def _add(a, b):
